@@ -38,7 +38,8 @@ def spec_parse(header):
 
 def parse_header_cases():
     names = ['gzip', 'lz4', 'identity', '*', 'x-lz4', 'br']
-    qs = ['', ';q=1', ';q=0.5', '; q=0.5', ';q= 0.9', ';q=0', ';q=0.0', '; q = 0', ';q=abc', ';q', ';level=1', ';q=1.0']
+    qs = ['', ';q=1', ';q=0.5', '; q=0.5', ';q= 0.9', ';q=0', ';q=0.0', '; q = 0', ';q=abc', ';q', ';level=1', ';q=1.0',
+          ';', ';q=', ';q=1.0.0', ';q=0x1']
     seps = [',', ', ', ' ,', ' , ']
     cases, bad = 0, []
     rnd = random.Random(SEED)
@@ -48,7 +49,14 @@ def parse_header_cases():
             headers.append(f'{a}{qa}{rnd.choice(seps)}{b}{qb}')
     for h in headers:
         cases += 1
-        got = compression.CompressionHandler.parse_header(h)
+        try:
+            got = compression.CompressionHandler.parse_header(h)
+        except Exception as ex:  # noqa: BLE001
+            # the header comes from the peer and is parsed after the request was processed: it must never raise
+            bad.append({'key': f'parse-header-raises-{type(ex).__name__}', 'detail': f'parse_header({h!r}) raises {ex!r}'})
+            if len(bad) > 3:
+                break
+            continue
         want = spec_parse(h)
         if got != want:
             bad.append({'key': 'parse-header-q0-accepted' if set(got) - set(want) else 'parse-header-differs',
